@@ -184,7 +184,11 @@ def finish(ctx, level="model_checking"):
           "coverage": cov, "assumptions": ctx.assumptions,
           "wall_s": round(time.time() - ctx.t0, 2), "violations": len(unknown)}
     os.makedirs(os.path.join(VERIF, "evidence"), exist_ok=True)
-    with open(os.path.join(VERIF, "evidence", ctx.pid + ".json"), "w") as fh:
+    # evidence is only ever written for runs against /repo itself; a run against another source
+    # root (VERIF_REPO: seeded-change sweeps) leaves its record in the scratch directory
+    evpath = (os.path.join(VERIF, "evidence", ctx.pid + ".json") if os.path.realpath(REPO) == "/repo"
+              else ctx.path("evidence.other-source-root.json"))
+    with open(evpath, "w") as fh:
         json.dump(ev, fh, indent=1, default=str)
     print("%s tier=%s seed=%d: %d evaluations, %d violations (%d distinct signatures), %d known-finding cases, %.1fs" % (
         ctx.pid, ctx.tier, ctx.seed, cov.get("evaluations", 0), len(unknown), len(shown),
